@@ -341,6 +341,9 @@ def pd_dataframe(I, args, kwargs):
     data = arg(args, kwargs, 0, "data")
     if isinstance(data, STable):
         return data
+    t = rows_table_from(I, data)
+    if t is not None:
+        return t
     raise Undecided("pd.DataFrame(data)")
 
 
@@ -363,3 +366,109 @@ _M2[("STable", "append")] = _t_append
 _M2[("STable", "drop")] = _t_same
 _M2[("STable", "astype")] = _t_same
 _M2[("STable", "copy")] = _t_same
+
+
+# ----------------------------------------------------------------------------- rows / tables of rows (tuning results)
+
+class SRow:
+    """pd.Series produced by DataFrame.mean(): named scalar entries (+ arbitrary objects added by item assignment)"""
+
+    def __init__(self, items, prov=None):
+        self.items = dict(items)
+        self.prov = prov
+
+
+class SRowsTable:
+    """pd.DataFrame built from a list of rows (concrete number of rows)"""
+
+    def __init__(self, rows):
+        self.rows = rows
+        self.extra = {}          # column name -> SArr of per-row values (e.g. ranks)
+
+
+def _t_filter(I, recv, args, kwargs):
+    t = STable(recv.nrows, recv.tag)
+    t.kept = [x for x in I.iter_concrete(kwargs.get("items"))] if kwargs.get("items") is not None else None
+    t.src = getattr(recv, "src", recv)
+    return t
+
+
+def _t_mean(I, recv, args, kwargs):
+    """column means of an evaluate() table: one uninterpreted real per kept column, provenance = that table"""
+    cols = getattr(recv, "kept", None) or ["test_score", "fit_time", "pred_time"]
+    src = getattr(recv, "src", recv)
+    return SRow({c: I.ctx.fresh_real(f"mean[{c}]") for c in cols}, prov=src)
+
+
+_M2[("STable", "filter")] = _t_filter
+_M2[("STable", "mean")] = _t_mean
+
+
+def _r_add_prefix(I, recv, args, kwargs):
+    return SRow({str(args[0]) + k: v for k, v in recv.items.items()}, recv.prov)
+
+
+_M2[("SRow", "add_prefix")] = _r_add_prefix
+
+
+class _Loc:
+    def __init__(self, table):
+        self.table = table
+
+
+def rows_table_from(I, data):
+    if isinstance(data, SList) and all(isinstance(r, SRow) for r in data.items):
+        return SRowsTable(list(data.items))
+    return None
+
+
+def table_column(I, t, col):
+    if col in t.extra:
+        return t.extra[col]
+    vals = [r.items[col] for r in t.rows]
+    from .values import is_numlike
+    if all(is_numlike(v) for v in vals):
+        a = ops.arr_from_items(vals, kind="ndarray", dtype="real")
+        a.from_table = (t, col)
+        return SSeries(SArr((len(vals),), lambda i: i, "int", "RangeIndex", closed=(0, 1)), a)
+    return SList(vals, "list")
+
+
+def _series_rank(I, recv, args, kwargs):
+    """Series.rank(ascending=a) (average method): order-isomorphic to the values (reversed when not ascending)"""
+    asc = kwargs.get("ascending", args[0] if args else True)
+    asc_b = I.as_bool(asc) if not isinstance(asc, bool) else asc
+    if is_sym(asc_b):
+        asc_b = I.ctx.branch(asc_b, "rank-ascending")
+    v = recv.values
+    n = v.len
+    if is_sym(n):
+        raise Undecided("rank of a series of symbolic length")
+    USED.add("Series.rank(ascending): ranks are order-isomorphic to the values (ties equal), reversed when ascending is falsy")
+    rk = [I.ctx.fresh_real(f"rank{j}") for j in range(n)]
+    for a_ in range(n):
+        for b_ in range(n):
+            va, vb = ops.as_real(v.fn(a_)), ops.as_real(v.fn(b_))
+            lt = (va < vb) if asc_b else (va > vb)
+            I.ctx.assume(lt == (rk[a_] < rk[b_]))
+    return SSeries(recv.index, ops.arr_from_items(rk, kind="ndarray", dtype="real"))
+
+
+def _series_argmin(I, recv, args, kwargs):
+    """position of the first minimal element"""
+    v = recv.values
+    n = v.len
+    if is_sym(n):
+        raise Undecided("argmin of symbolic length")
+    if n == 0:
+        raise SymRaise(ExcVal(ExtClass("builtins.ValueError"), ()), where="argmin of empty")
+    b = I.ctx.fresh_int("argmin")
+    I.ctx.assume(And(b >= 0, b < n))
+    for j in range(n):
+        vj = ops.as_real(v.fn(j))
+        I.ctx.assume(Implies(Eq(b, j), And(*[(vj <= ops.as_real(v.fn(k_))) for k_ in range(n)] + [(vj < ops.as_real(v.fn(k_))) for k_ in range(j)])))
+    return b
+
+
+_M2[("series", "rank")] = _series_rank
+_M2[("series", "argmin")] = _series_argmin
